@@ -759,6 +759,12 @@ class Fxp():
         # scaling conversion (a raw value is already in the transformed domain, but the object keeps its scaling)
         self.scaled = self.scale is not None and self.bias is not None and (self.bias != 0 or self.scale != 1)
         if self.scaled and not raw:
+            if val.dtype != object and ((np.issubdtype(val.dtype, np.integer) and (val.dtype.itemsize < 8 or val.dtype == np.uint64)) or \
+                (np.issubdtype(val.dtype, np.floating) and val.dtype.itemsize < 8)):
+                # the affine map is not computed in a narrow or unsigned carrier type (it would wrap, raise or round)
+                val = val.astype(float)
+                if isinstance(vdtype, np.dtype):
+                    vdtype = float      # (a list of NumPy scalars carries its NumPy dtype here)
             if self.bias != 0:
                 val = val - self.bias
             if self.scale != 1:
@@ -1015,6 +1021,8 @@ class Fxp():
 
         # scaling reconversion
         if val is not None and self.scaled:
+            if isinstance(val, (np.ndarray, np.generic)) and np.issubdtype(val.dtype, np.unsignedinteger):
+                val = val.astype(np.int64)      # (a negative Python-int scale or bias is out of bounds for an unsigned type)
             val = val * self.scale + self.bias
         return val
 
